@@ -26,7 +26,7 @@ vars == <<l, C, S, rank, issued>>
 
 Chk(name, b) == IF b THEN TRUE ELSE PrintT(<<"FAIL", l, Trace[l].ev, name>>)
 
-EmptyS == [msgs |-> <<>>, ord |-> <<>>, oc |-> 0, lp |-> 0, ls |-> 0]
+EmptyS == [msgs |-> <<>>, ord |-> <<>>, oc |-> 0, lp |-> 0, ls |-> 0, psel |-> {}]
 NoCfg  == [backend |-> "none"]
 
 CfgOf(c) == [backend |-> c.backend, maxDepth |-> c.maxDepth, drop |-> c.drop, retMaxAge |-> c.retMaxAge,
@@ -46,7 +46,8 @@ Follow(e, newIds) ==
                        THEN S.oc + (CHOOSE k \in DOMAIN newIds : newIds[k] = i)
                        ELSE IF i \in DOMAIN S.ord THEN S.ord[i] ELSE 0],
            oc   |-> S.oc + Len(newIds),
-           lp   |-> e.vol.lp, ls |-> e.vol.ls]
+           lp   |-> e.vol.lp, ls |-> e.vol.ls,
+           psel |-> S.psel]      \* selection of a by-filter mutation that is between its two steps
   /\ rank' = e.rank
 
 Generic(e, cls, newIds) ==
@@ -192,6 +193,34 @@ TraceMutateFilter ==
         /\ Follow(e, <<>>)
   /\ UNCHANGED <<C, issued>>
 
+(***************************************************************************)
+(* A by-filter mutation of the SQLite store is two atomic steps - select   *)
+(* the ids (FilterSelect), then mutate them by id with the state guard     *)
+(* (FilterApply) - and other operations can run in between (the harness    *)
+(* pauses the real call at the hook between the two statements).  What the *)
+(* second step may touch: exactly the selected messages that are STILL in  *)
+(* a state the operation is defined for.                                   *)
+(***************************************************************************)
+TraceFilterSelect ==
+  /\ IsEvent("FilterSelect")
+  /\ LET e == Trace[l]
+     IN /\ Chk("post", e.post = S.msgs)
+        /\ S' = [S EXCEPT !.psel = Select(S.msgs, rank, e.a.op, e.a.f)]
+        /\ rank' = e.rank
+  /\ UNCHANGED <<C, issued>>
+
+TraceFilterApply ==
+  /\ IsEvent("FilterApply")
+  /\ LET e == Trace[l]
+         r == MutateIds(S.msgs, e.a.op, S.psel, e.now)
+     IN /\ Chk("err", e.r.err = "")
+        /\ Chk("matched", e.r.matched = Cardinality(S.psel))
+        /\ Chk("count", e.r.n = r.n)
+        /\ Chk("post", r.msgs = e.post)
+        /\ Generic(e, e.a.op, <<>>)
+        /\ Follow(e, <<>>)
+  /\ UNCHANGED <<C, issued>>
+
 \* reads that run the prune step first
 PruneStep(e) ==
   LET pres == PruneOutcomes(C, S.msgs, S.lp, e.now)
@@ -272,7 +301,7 @@ TraceStats ==
 
 Next ==
   \/ TraceReset \/ TraceTick \/ TraceEnqueue \/ TraceDequeue \/ TraceLeaseOp \/ TraceLeaseBatch
-  \/ TraceMutateIds \/ TraceMutateFilter \/ TraceListMessages \/ TraceListDead \/ TraceLookup \/ TraceStats
+  \/ TraceMutateIds \/ TraceMutateFilter \/ TraceFilterSelect \/ TraceFilterApply \/ TraceListMessages \/ TraceListDead \/ TraceLookup \/ TraceStats
 
 Spec == Init /\ [][Next]_vars
 
